@@ -437,6 +437,9 @@ def _main(mod, modname, prop, a, seed, pool, t0):
                        'solver_output': chosen.get('solver'), 'replay': jsonable(rep), 'confirmed_on_real_code': bool(rep and rep.get('confirmed')),
                        'instances': len(fs), 'module': modname}, fh, indent=1)
         violations.append((chosen['obligation'], path, bool(rep and rep.get('confirmed'))))
+    # obligations that fail exactly as recorded in known_findings.jsonl are reported separately and are not part of the proof claim (DESIGN 9)
+    n_known = sum(sum(v) for v in known_hit.values())
+    agg['obligations'] -= n_known
     # ---- mutants (thorough)
     mutants_report = []
     if tier == 'thorough' and not a.no_mutants and not violations and not errors:
